@@ -223,6 +223,10 @@ def _precedence(P, R):
                 R.hold("c", "%s folds left with %s(result, next)" % (folder, ctor.rsplit("::", 1)[1]), fn=g)
             else:
                 R.violate("c", "fold-direction:%s" % folder, "%s does not fold left (first argument is `%s`)" % (folder, a0[:60]), g)
+        elif not ctors:
+            # the connective is applied somewhere the rule does not look (a shared helper taking the constructor as a function
+            # value, `reduce(join)`): no verdict rather than a guess
+            R.undecide("c", "fold-connective:%s" % folder, "%s does not call ConditionGroup::and / ::or itself (constructor passed as a value?)" % folder, g)
         else:
             R.violate("c", "fold-connective:%s" % folder, "%s builds its group with %s" % (folder, sorted(x.rsplit("::", 1)[1] for x in ctors)), g)
     # `!` and the keyword forms come after both splits
